@@ -115,6 +115,13 @@ class Closure:
         self.params, self.rest, self.body, self.env, self.name = params, rest, body, env, name
 
 
+class CaseLambda:
+    __slots__ = ("clauses", "env", "name")
+
+    def __init__(self, clauses, env):
+        self.clauses, self.env, self.name = clauses, env, "case-lambda"
+
+
 class Prim:
     __slots__ = ("name", "fn", "lo", "hi", "special")
 
@@ -245,7 +252,7 @@ def canon(v, depth=0):
         return "(S" + "".join(" " + e for e in ents) + ")"
     if isinstance(v, StructInst):
         return "(ST %s%s)" % (v.type.name, "".join(" " + canon(x, depth + 1) for x in v.fields))
-    if isinstance(v, (Closure, Prim)):
+    if isinstance(v, (Closure, Prim, CaseLambda)):
         return "proc"
     if isinstance(v, Cont):
         return "cont"
@@ -579,6 +586,11 @@ class Machine:
             if f.rest is not None:
                 env.vars[f.rest] = [py_to_list(args[n:])]
             return self.eval_body(f.body, env, k)
+        if isinstance(f, CaseLambda):
+            for params, rest, body in f.clauses:
+                if len(args) == len(params) or (rest is not None and len(args) >= len(params)):
+                    return self.apply(Closure(params, rest, body, f.env, f.name), args, k)
+            raise SchemeError(ErrorObj("case-lambda: no clause matches %d arguments" % len(args)))
         if isinstance(f, Prim):
             if len(args) < f.lo or (f.hi is not None and len(args) > f.hi):
                 raise SchemeError(ErrorObj("arity mismatch calling %s" % f.name))
@@ -663,6 +675,14 @@ def parse_params(p):
 def sf_lambda(m, x, env, k):
     params, rest = parse_params(x[1])
     return ("ret", Closure(params, rest, x[2:], env), k)
+
+
+def sf_case_lambda(m, x, env, k):
+    clauses = []
+    for c in x[1:]:
+        params, rest = parse_params(c[0])
+        clauses.append((params, rest, c[1:]))
+    return ("ret", CaseLambda(clauses, env), k)
 
 
 def sf_set(m, x, env, k):
@@ -807,7 +827,7 @@ SPECIAL = {
     "quote": sf_quote, "if": sf_if, "define": sf_define, "lambda": sf_lambda, "set!": sf_set, "begin": sf_begin,
     "let": sf_let, "let*": sf_letstar, "letrec": sf_letrec, "letrec*": sf_letrec, "cond": sf_cond, "and": sf_and,
     "or": sf_or, "when": sf_when, "unless": sf_unless, "case": sf_case, "do": sf_do,
-    "with-handler": sf_with_handler, "verif-emit": sf_emit, "struct": sf_struct,
+    "with-handler": sf_with_handler, "case-lambda": sf_case_lambda, "verif-emit": sf_emit, "struct": sf_struct,
 }
 
 
@@ -1069,7 +1089,7 @@ def install_prims(m):
 
     # higher-order (generators: callbacks go through the machine)
     def proc(f):
-        need(isinstance(f, (Closure, Prim, Cont)), "expected a procedure")
+        need(isinstance(f, (Closure, Prim, Cont, CaseLambda)), "expected a procedure")
         return f
 
     def happly(f, *rest):
@@ -1080,7 +1100,7 @@ def install_prims(m):
     # apply must be a *tail* call of f: implemented specially
     def apply_special(mach, args, k):
         f = args[0]
-        need(isinstance(f, (Closure, Prim, Cont)), "apply expects a procedure")
+        need(isinstance(f, (Closure, Prim, Cont, CaseLambda)), "apply expects a procedure")
         l = list_to_py(args[-1])
         need(l is not None, "apply expects a list")
         return ("apply", f, list(args[1:-1]) + l, k)
